@@ -24,6 +24,9 @@ ASSUMPTIONS = ["Redis LRANGE returns elements left to right, LPUSH/RPUSH add at 
 def run(ctx: Ctx) -> None:
     discipline(ctx)
     inmem(ctx)
+    from .C06 import first_run
+
+    first_run(ctx)  # R-C06-FIRST reused: an elapsed deferred_until must not park an immediately deliverable message among the delayed ones
 
 
 def discipline(ctx: Ctx, rule="R-C15-DISCIPLINE") -> None:
@@ -112,7 +115,9 @@ def discipline(ctx: Ctx, rule="R-C15-DISCIPLINE") -> None:
     # removal end
     t = ctx.func(f"{C.REDIS_CONS}.__get_message_name")
     lrem = [c for _o, c in C.flat_walk(ctx, t) if isinstance(c, ast.Call) and isinstance(c.func, ast.Attribute) and c.func.attr == "lrem"]
-    ctx.require(len(lrem) == 1, f"{t.qualname}: lrem not found")
+    if not ctx.check(len(lrem) == 1, rule, t, "take removes the fetched name with LREM", "one lrem", "redis take does not remove the fetched name with LREM: the element removed is not the one "
+                     "that was fetched and delivered, so the queue order and content diverge from what was delivered", instance="lrem present"):
+        return
     cnt = lrem[0].args[1]
     cv = -cnt.operand.value if isinstance(cnt, ast.UnaryOp) and isinstance(cnt.op, ast.USub) and isinstance(cnt.operand, ast.Constant) else (cnt.value if isinstance(cnt, ast.Constant) else None)
     want = -1 if consumption_end == "tail" else 1
